@@ -313,9 +313,10 @@ func c08Client(c *Ctx, r *Report, ci *clientInfo, control bool) map[string]bool 
 	}
 	// ---- R8.4 ----
 	var tooLong *ReturnSite
-	for i := range fr.returns {
-		if strings.Contains(ci.errorClass(fr, fr.returns[i].vals[1]), "ErrPacketTooLong") {
-			tooLong = &fr.returns[i]
+	for _, site := range expandedReturns(fr, 0) {
+		// the return itself, or the return of a local helper the error is routed through
+		if len(site.rs.vals) == 2 && len(site.rs.state) > 0 && strings.Contains(ci.errorClass(site.fr, site.rs.vals[1]), "ErrPacketTooLong") {
+			tooLong = site.rs
 		}
 	}
 	if tooLong == nil {
